@@ -334,12 +334,18 @@ def writeInc (s : State) (o : Nat) (v : Int) : State :=
 
 /-! ## sending notifications, deferred functions -/
 
+/-- `(subscription is None) or (subscription in self.cov_subscriptions)` -/
+def sendMoves (d : Det) : Option Nat → Bool
+  | none => true
+  | some sid => d.subs.any (fun c => c.sid == sid)
+
 /-- `send_cov_notifications` of the detection object `d` of `ob`; returns the
     detection object afterwards and the requests handed to the application.
     `only = some sid` is the `subscription` argument. -/
 def sendNotifications (now : Nat) (ob : Obj) (d : Det) (only : Option Nat) : Det × List Out :=
   -- COVIncrementCriteria: when sending out notifications, keep the current value
-  let d1 := if ob.incr then { d with prev := some ob.pv } else d
+  -- ((repair) unless the one subscription meant is gone: nothing is reported then)
+  let d1 := if ob.incr && sendMoves d only then { d with prev := some ob.pv } else d
   if d.subs.isEmpty then (d1, [])
   else match only with
     | none => (d1, d.subs.map (notifyOf now ob))
